@@ -548,6 +548,9 @@ def run_case(case):
     out["names"] = names
 
     out["symbolic"] = guarded(lambda: tree(SymbolicExpr(k)))
+    # the two arity arms: no argument -> the object stays unevaluated; more than one -> ValueError
+    out["call0"] = guarded(lambda: type(SymbolicExpr()) is SymbolicExpr)
+    out["call2"] = guarded(lambda: tree(SymbolicExpr(k, k)))
 
     # oracle of the homomorphism: SymbolicExpr(k) must be the generic substitution named atom -> its own symbol,
     # and must raise exactly when some object in k has no translation
@@ -608,6 +611,15 @@ def run_case(case):
                     "idx_phys": guarded(lambda F=F: [dict3(d, PH) for d in get_index_derivatives_atom(k, F)]),
                     "idx_log": guarded(lambda F=F: [dict3(d, LG) for d in get_index_logical_derivatives_atom(k, F)])})
     out["per"] = per
+    # verbose=True only prints the operators found: the result must not depend on it
+    if qall:
+        import contextlib
+        import io
+        F0 = qall[0][1]
+        with contextlib.redirect_stdout(io.StringIO()):
+            vb = (guarded(lambda: [dict3(d, PH) for d in get_index_derivatives_atom(k, F0, verbose=True)]),
+                  guarded(lambda: [dict3(d, LG) for d in get_index_logical_derivatives_atom(k, F0, verbose=True)]))
+        out["verbose_same"] = vb[0] == per[0]["idx_phys"] and vb[1] == per[0]["idx_log"]
     return out
 
 
